@@ -229,7 +229,10 @@ class Stage2SummIntrinsics(Stage2Intrinsics):
 
         @reg(H + "parseNumber")
         def parse_number(eng, st, fr, args, ins):
-            bs = [bv(b, 8) for b in eng.slice_read_all(st, args[0], ins.get("pos"))]
+            from .intr_num import MAXLIT
+            # the oracle is a function of the first MAXLIT bytes of the rest of the message (the harness layouts keep every
+            # token and its terminator within that window)
+            bs = [bv(b, 8) for b in eng.slice_read_all(st, args[0], ins.get("pos"))][:MAXLIT]
             key = ("num",) + tuple(b.get_id() for b in bs)
             known = st.notes.get(key)
             if known is not None:
